@@ -370,9 +370,13 @@ def run(ctx):
     with common.Pool() as pool:
         res = pool.map(check, js, chunksize=32)
     shapes = {}
+    arr = {"evaluations": 0, "some_array_partly_connected": 0, "every_array_fully_connected_or_unconnected": 0}
     for j, viol in zip(js, res):
         s = shape_of(j[2])
         shapes[s] = shapes.get(s, 0) + 1
+        if j[1] in ARR:
+            arr["evaluations"] += 1
+            arr["some_array_partly_connected" if arr_reference(*j)[2] else "every_array_fully_connected_or_unconnected"] += 1
         for sig, msg, case in viol:
             ctx.violation(sig, msg, case)
     for k in (1, len(js) // 2, len(js) - 1):
@@ -383,16 +387,22 @@ def run(ctx):
             "evaluations": len(js),
             "distinct_nontrivial": len(js) - shapes.get("none", 0) - shapes.get("tree", 0),
             "by_graph_class": shapes,
+            "array_family": arr,
             "exhaustive": True,
             "rule": "every sequence of <= n connect clauses over all ordered pairs of distinct endpoints (component connectors = "
             "inside, top-level connectors = outside): quick n = 3 over 5 endpoints with a (v, flow i) connector, n = 2 with two "
             "potentials and two flows, n = 2 with a component whose own connector is also connected inside it; thorough n = 4 / "
-            "3 over up to 7 endpoints. Sequences are distinct by construction; non-trivial = the sequence closes a cycle, repeats "
+            "3 over up to 7 endpoints. Array family (elements of connector arrays as endpoints): Comp c1; Tank t (Pin ports[3]; Pin top); "
+            "Pin e[2] with endpoints c1.p, t.ports[1..3], t.top (inside), e[1], e[2] (outside), quick n = 2, thorough n = 3 (and n = 2 with "
+            "two potentials and two flows); arrays of components Comp b[2]; Tank tt[2]; Pin e[2] with 8 endpoints such as b[2].p, "
+            "tt[2].ports[1], quick n = 1, thorough n = 2. Sequences are distinct by construction; non-trivial = the sequence closes a cycle, repeats "
             "a connection or merges two existing sets (the rest are trees, also checked).",
         }
     )
     ctx.assumptions.append("solution-space comparison by exact rational row-space equality of the linear connection equations")
     ctx.assumptions.append("a flow variable in no connection is zero, for inside and outside connectors alike, as the statement says")
+    ctx.assumptions.append("each element of a connector array is a connector of its own: an element in no connection has zero flows even when other elements of the array are connected")
+    ctx.assumptions.append("a flat equation over whole arrays of one shape (e.i = 0) stands for one scalar equation per element")
 
 
 def replay(case):
